@@ -2,7 +2,8 @@ import RsMatterVerif.Model.Codec.Buf
 /-!
 # Model of the BLE advertisement payload of a commissionable device: `transport/network/btp/gatt.rs`
 `AdvData::iter` / `service_payload_iter` and `AdvData::parse_adv` / `parse_service_data`
-(with `matter_service_data` and the `AdStructures` iterator). `RecoveryAdvData` is not modelled.
+(with `matter_service_data` and the `AdStructures` iterator). `RecoveryAdvData` is modelled in `Model/Codec/BleRecovery.lean`
+(it reuses `matterServiceData` of this file).
 -/
 namespace Codec.BleAdv
 open Codec
@@ -37,32 +38,50 @@ def parseServiceData (p : List Nat) : Except Err (Option Adv) :=
       else .ok (some { disc := (d0 + 256 * d1) % 4096, vid := v0 + 256 * v1, pid := p0 + 256 * p1, additional := ad % 2 = 1 })
     | _ => .error .panic
 
-/-- `matter_service_data` over the `AdStructures` iterator: `fuel` bounds the walk (each step consumes
-at least two bytes). Returns the service data of the first Matter UUID16 service-data structure. -/
-def matterServiceData : Nat → List Nat → Option (List Nat)
-  | 0, _ => none
+/-- what can go wrong in the model of the `AdStructures` walk besides "no Matter record" (which is the
+good value `none`): a checked operation fails, or the model's fuel runs out (= the Rust loop would not have
+terminated within the bound). `Lemmas/CodecBleAdv.lean` proves that neither happens. -/
+inductive WalkErr
+  | panic   -- `rest.split_at(len)` out of range
+  | fuel    -- more than `fuel` structures: not a result of the Rust code
+deriving DecidableEq, Repr
+
+/-- checked `rest.split_at(len)` (panics when `len > rest.len()`) -/
+def splitAt (rest : List Nat) (len : Nat) : Except WalkErr (List Nat × List Nat) :=
+  if len ≤ rest.length then .ok (rest.take len, rest.drop len) else .error .panic
+
+/-- `matter_service_data` over the `AdStructures` iterator. `fuel` bounds the walk; running out of it is the
+distinct error `WalkErr.fuel`, never the good value `none`. Returns the service data of the first Matter
+UUID16 service-data structure, `none` if the walk ends (end of data, zero length, length beyond the data)
+without finding one. -/
+def matterServiceData : Nat → List Nat → Except WalkErr (Option (List Nat))
+  | 0, _ => .error .fuel
   | fuel + 1, adv =>
     match adv with
-    | [] => none
+    | [] => .ok none
     | len :: rest =>
-      if len = 0 ∨ len > rest.length then none
+      if len = 0 ∨ len > rest.length then .ok none
       else
-        let strct := rest.take len
-        let rest' := rest.drop len
-        match strct with
-        | [] => none          -- `structure.split_first()?` (cannot happen: len ≥ 1)
-        | ty :: payload =>
-          if ty ≠ AD_TYPE_SERVICE_DATA_UUID16 then matterServiceData fuel rest'
-          else match payload with
-            | lo :: hi :: data =>
-              if lo = MATTER_UUID16_LO ∧ hi = MATTER_UUID16_HI then some data else matterServiceData fuel rest'
-            | _ => matterServiceData fuel rest'
+        match splitAt rest len with
+        | .error e => .error e
+        | .ok (strct, rest') =>
+          match strct with
+          | [] => .ok none          -- `structure.split_first()?` (cannot happen: len ≥ 1)
+          | ty :: payload =>
+            if ty ≠ AD_TYPE_SERVICE_DATA_UUID16 then matterServiceData fuel rest'
+            else match payload with
+              | lo :: hi :: data =>
+                if lo = MATTER_UUID16_LO ∧ hi = MATTER_UUID16_HI then .ok (some data) else matterServiceData fuel rest'
+              | _ => matterServiceData fuel rest'
 
-/-- `parse_adv` -/
+/-- `parse_adv`. An error of the walk (failed checked split, fuel exhausted) is not an answer of the Rust
+code; it is reported as `Err.panic` so that `NoPanic (parseAdv adv)` covers "the walk terminates within
+`len + 1` steps and its `split_at` is in range" (`matterServiceData_ok`). -/
 def parseAdv (adv : List Nat) : Except Err (Option Adv) :=
   match matterServiceData (adv.length + 1) adv with
-  | none => .ok none
-  | some d => parseServiceData d
+  | .error _ => .error .panic
+  | .ok none => .ok none
+  | .ok (some d) => parseServiceData d
 
 def WF (a : Adv) : Prop := a.vid < 65536 ∧ a.pid < 65536 ∧ a.disc < 4096
 
